@@ -63,7 +63,8 @@ Definition entry_c11_sched (a : list str) : list str :=
       let C := dec_nat c in
       let sgs := dec_stages (length r) 0%N r in
       let n := length sgs in
-      let fuel := ((2 * n + 3) * total_units sgs + 6 * n + 10)%nat in
+      (* small + big: the extracted [Nat.add] recurses on its first argument *)
+      let fuel := ((6 * n + 10) + (2 * n + 3) * total_units sgs)%nat in
       show_outcome (run_sched C (S C) false fuel (init sgs)) ++
       show_outcome (run_sched C (S C) true fuel (init sgs)) ++
       (* the slowest producer (one unit per step, consumers first); only affordable on small payloads *)
